@@ -88,6 +88,15 @@ def specialise(stmts: list, var: str, key_text: str, scopes: list, same_key: Opt
                 return copy.deepcopy(self.env[n.id])
             return n
 
+        def visit_IfExp(self, n):
+            self.generic_visit(n)
+            d = test_value(n.test)
+            if d is True:
+                return n.body
+            if d is False:
+                return n.orelse
+            return n
+
         def visit_Subscript(self, n):
             self.generic_visit(n)
             if isinstance(n.value, ast.Name) and isinstance(n.slice, ast.Name) and n.slice.id == var and isinstance(n.ctx, ast.Load):
